@@ -41,7 +41,7 @@ NSHARD = {"quick": 16, "thorough": 48}
 
 
 def bounds(tier):
-    return {"records": 5, "bgzf_max_cuts": 2 if tier == "thorough" else 2, "layout_stride": 1}
+    return {"records": 5, "bgzf_max_cuts": 3 if tier == "thorough" else 2, "layout_stride": 1}
 
 
 def plan(tier, seed):
